@@ -26,10 +26,12 @@ Definition panicked_groups (c : c3case) : list N :=
 Definition model_build_panics (bs : list dblock) : bool :=
   negb (is_ok (build_document [] "n" bs)).
 
-(* class 1 (F1): some list item starts with a code block, quote, table or rule:
-   [item_leads_ok] of BuilderFacts.v, the hypothesis of the totality theorem *)
+(* (formerly classes 1 and 2, F-LEADPANIC and F-ITEMLEAD, repaired: a list item that starts with a
+   code block, quote, table or rule, or with a list that further blocks follow, is built as a
+   section without text over all its blocks; BuilderFacts.build_document_total has no hypothesis
+   left, so a builder panic or a corrupted arena on such an input is a violation now) *)
 
-(* (formerly class 3, F-EMPTYFIRST, repaired in 9f6ec66: `DocumentBlock::line_range` of a list
+(* (formerly class 3, F-EMPTYFIRST, repaired in d2c35b3: `DocumentBlock::line_range` of a list
    whose first item is empty no longer unwraps; Pos.line_range with [v_empty_item],
    PosFacts.link_at_total) *)
 
@@ -47,8 +49,7 @@ Fixpoint has_block_ref (b : dblock) {struct b} : bool :=
 
 Definition c3_classes (c : c3case) : list N :=
   match c3_blocks c with
-  | Ok bs => flag 1 (forallb item_leads_ok bs) ++ flag 2 (forallb plain_items bs) ++
-             flag 6 (negb (c3_crlf c))
+  | Ok bs => flag 6 (negb (c3_crlf c))
   | Panic _ => flag 4 (negb (starts_with "long" (c3_shape c) || starts_with "deep" (c3_shape c) ||
                              starts_with "wide" (c3_shape c)))
   end.
@@ -63,8 +64,6 @@ Definition c3_corr (c : c3case) : list N :=
    explains stays unclassified (and is reported) *)
 Definition explains (cls g : N) : bool :=
   match cls with
-  | 1 => N.eqb g 2                       (* builder panic while loading *)
-  | 2 => true                            (* corrupted arena: anything afterwards *)
   | 4 => true                            (* too large to dump: stack *)
   | 6 => N.eqb g 8                       (* key_range with shifted columns *)
   | _ => false
